@@ -459,6 +459,16 @@ theorem clauseLoc_ok {t : Table} (hinv : Inv c g t) (f : Fam) {l : LocObs} (hl :
   rw [helig]
   simp [List.map_take, Entry.ref, Function.comp_def]
 
+theorem filter_map_dentry (fl : Flags) (q' : DEntry → Bool) (q : Entry → Bool) (es : List Entry)
+    (h : ∀ e ∈ es, q' (dentryOf fl e) = q e) :
+    (es.map (dentryOf fl)).filter q' = (es.filter q).map (dentryOf fl) := by
+  induction es with
+  | nil => rfl
+  | cons e es ih =>
+    simp only [List.map_cons, List.filter_cons, h e List.mem_cons_self]
+    rw [ih (fun a ha => h a (List.mem_cons_of_mem _ ha))]
+    cases q e <;> rfl
+
 theorem nonEmptyList_optList {β} (l : List β) : optList (nonEmptyList l) = l := by
   cases l <;> rfl
 
@@ -466,7 +476,7 @@ theorem clauseShown_ok {t : Table} {op : Op} (r : Res) (hinv : Inv c g t) {m : N
     (hnh : NhRel t m) (f : Fam) {d : Net × List DEntry} (hd : d ∈ (famObs c t f).dests) :
     clauseShown { c := c, stale := (stepObs c op (t, r)).stale, llgr := (stepObs c op (t, r)).llgr } m (famObs c t f) d
       = none := by
-  obtain ⟨_, dst, hlk⟩ := dumpDest_of_mem hinv f hd
+  obtain ⟨hent, dst, hlk⟩ := dumpDest_of_mem hinv f hd
   have hshown : optList (lookupNet d.1 (famObs c t f).nofilt) =
       ((t.entries f d.1).filter fun e => !e.filtered).map (dentryOf t.flags) := by
     rw [lookupNet_eq_find, famObs_nofilt_find t f (hinv.rib f) d.1]
@@ -484,12 +494,17 @@ theorem clauseShown_ok {t : Table} {op : Op} (r : Res) (hinv : Inv c g t) {m : N
       | cons a l => rw [h] at he; simp at he
     · rw [if_neg he, hid]
       simp [locOf, List.map_map, Entry.ref, Function.comp_def]
+  have hfilt : d.2.filter (fun e => !e.filtered) = ((t.entries f d.1).filter fun e => !e.filtered).map (dentryOf t.flags) := by
+    rw [hent]
+    exact filter_map_dentry t.flags _ _ _ (fun e _ => rfl)
   unfold clauseShown
-  show (if (eligibleOf _ m f d.1 (optList (lookupNet d.1 (famObs c t f).nofilt)) ==
+  show (if (optList (lookupNet d.1 (famObs c t f).nofilt) != d.2.filter (fun e => !e.filtered)) = true
+      then some "api-list-is-not-the-unfiltered-paths"
+    else if (eligibleOf _ m f d.1 (optList (lookupNet d.1 (famObs c t f).nofilt)) ==
       (match (famObs c t f).loc.find? (fun l => l.net = d.1) with
         | some l => l.paths.map fun p => (p.src, p.attr)
         | none => ([] : List (Nat × Nat)))) = true then none else some "api-list-order-differs-from-ranking") = none
-  rw [hshown, hrank, eligibleOf_obs_filter hinv hnh _ rfl, elig_eq_filter, List.filter_filter]
+  rw [hshown, hrank, hfilt, eligibleOf_obs_filter hinv hnh _ rfl, elig_eq_filter, List.filter_filter]
   have : (t.entries f d.1).filter (fun e => e.eligible && !e.filtered) = (t.entries f d.1).filter Entry.eligible := by
     apply List.filter_congr
     intro e _
@@ -504,16 +519,6 @@ theorem isRsClient_ref {e : Entry} (h : c.srcs[e.src.id]? = some e.src) :
 
 theorem addrOfSrc_ref {e : Entry} (h : c.srcs[e.src.id]? = some e.src) : addrOfSrc c e.src.id = e.src.addr := by
   simp [addrOfSrc, h]
-
-theorem filter_map_dentry (fl : Flags) (q' : DEntry → Bool) (q : Entry → Bool) (es : List Entry)
-    (h : ∀ e ∈ es, q' (dentryOf fl e) = q e) :
-    (es.map (dentryOf fl)).filter q' = (es.filter q).map (dentryOf fl) := by
-  induction es with
-  | nil => rfl
-  | cons e es ih =>
-    simp only [List.map_cons, List.filter_cons, h e List.mem_cons_self]
-    rw [ih (fun a ha => h a (List.mem_cons_of_mem _ ha))]
-    cases q e <;> rfl
 
 theorem find?_eq_head?_filter' {α} (q : α → Bool) (l : List α) : l.find? q = (l.filter q).head? := by
   induction l with
